@@ -2,6 +2,7 @@ package props
 
 import (
 	"fmt"
+	"go/ast"
 	"regexp"
 	"sort"
 	"strings"
@@ -17,7 +18,7 @@ var reTagEq = regexp.MustCompile(`^dom\.TagName\(\$1\) == "([^"]*)"$`)
 
 // nestableTags extracts the set of tags for which webdoc.CanBeNested returns true.
 func nestableTags(p *core.Program, r *core.Report, rule string) map[string]bool {
-	fn := mustFunc(p, r, rule, "mod/internal/webdoc.CanBeNested")
+	fn := mustInl(p, r, rule, "mod/internal/webdoc.CanBeNested")
 	if fn == nil {
 		return nil
 	}
@@ -62,7 +63,7 @@ func C07(p *core.Program, r *core.Report) {
 	}
 
 	// ---- N3 retainer
-	nr := mustFunc(p, r, "N3", "(*"+docfilterPkg+".NestedElementRetainer).Process")
+	nr := mustInl(p, r, "N3", "(*"+docfilterPkg+".NestedElementRetainer).Process")
 	if nr != nil {
 		hs := loopHeaders(nr)
 		if len(hs) != 1 {
@@ -80,7 +81,7 @@ func C07(p *core.Program, r *core.Report) {
 				o := paths[i].Outcome
 				if strings.Contains(o, "next(state0=&elem(") || strings.Contains(o, "webdoc.BaseElement.SetIsContent(&elem(μ(") {
 					// end tag: next state is the popped start tag's previous flag
-					o = regexp.MustCompile(`next\(state0=&elem\(.*\)\.BaseElement\.isContent\)`).ReplaceAllString(o, "next(state0=<was content of start tag>)")
+					o = regexp.MustCompile(`next\(state0=&elem\(.*\)\.BaseElement\.‹bool›\)`).ReplaceAllString(o, "next(state0=<was content of start tag>)")
 					o = regexp.MustCompile(`webdoc\.BaseElement\.SetIsContent\(&elem\(μ\(.*?\)\)\.BaseElement,`).ReplaceAllString(o, "SetIsContent(<start tag>,")
 					o = strings.ReplaceAll(o, "webdoc.BaseElement.SetIsContent(&"+tag+".BaseElement,", "SetIsContent(<end tag>,")
 				}
@@ -142,28 +143,30 @@ func C07(p *core.Program, r *core.Report) {
 	}
 
 	// ---- N2 tables as a unit
-	tg := mustFunc(p, r, "N2", "(*mod/internal/webdoc.Table).GenerateOutput")
+	tg := mustInl(p, r, "N2", "(*mod/internal/webdoc.Table).GenerateOutput")
 	if tg != nil {
 		c := core.NewCanon(p)
 		want := `domutil.CloneAndProcessList(domutil.GetOutputNodes($0.Element),$0.PageURL)`
+		cl := "$0.‹*html.Node›" // the table's private clone
 		for _, fn := range p.ModFunctions(false) {
-			for _, b := range fn.Blocks {
-				for _, in := range b.Instrs {
-					if st, ok := in.(*ssa.Store); ok && c.Of(st.Addr) == "&$0.cloned" && strings.Contains(fn.String(), "webdoc.Table)") {
-						r.Add("N2", "Table.cloned is the processed clone of the whole table: "+core.ShortKey(fn), p.Pos(st.Pos()), c.Of(st.Val) == want, "stored: "+c.Of(st.Val))
-					}
+			if !strings.Contains(fn.String(), "webdoc.Table)") || !ast.IsExported(fn.Name()) {
+				continue
+			}
+			for _, in := range instrsOf(p.Inlined(fn)) {
+				if st, ok := in.(*ssa.Store); ok && c.Of(st.Addr) == "&"+cl {
+					r.Add("N2", "the table's private clone is the processed clone of the whole table: "+core.ShortKey(fn), p.Pos(st.Pos()), c.Of(st.Val) == want, "stored: "+c.Of(st.Val))
 				}
 			}
 		}
 		for _, ret := range core.Returns(tg) {
 			v := c.Of(ret.Results[0])
-			ok := v == "domutil.InnerText($0.cloned)" || v == "dom.OuterHTML($0.cloned)"
+			ok := v == "domutil.InnerText("+cl+")" || v == "dom.OuterHTML("+cl+")"
 			r.Add("N2", "Table.GenerateOutput serialises the one clone", p.Pos(ret.Pos()), ok, "returns "+v)
 		}
 		r.Floor("N2", 4)
 	}
 	// WebDocumentBuilder.AddDataTable keeps the node
-	adt := mustFunc(p, r, "N2", "(*mod/internal/webdoc.WebDocumentBuilder).AddDataTable")
+	adt := mustInl(p, r, "N2", "(*mod/internal/webdoc.WebDocumentBuilder).AddDataTable")
 	if adt != nil {
 		ok := false
 		for _, a := range allocsOf(adt, "/internal/webdoc", "Table") {
@@ -175,7 +178,7 @@ func C07(p *core.Program, r *core.Report) {
 		r.Add("N2", "AddDataTable stores the table element itself", p.Pos(adt.Pos()), ok, "")
 	}
 	// GetOutputNodes: collected list is append-only
-	gon := mustFunc(p, r, "N2", "mod/internal/domutil.GetOutputNodes")
+	gon := mustInl(p, r, "N2", "mod/internal/domutil.GetOutputNodes")
 	if gon != nil {
 		c := core.NewCanon(p)
 		fns := append([]*ssa.Function{gon}, gon.AnonFuncs...)
@@ -200,7 +203,7 @@ func C07(p *core.Program, r *core.Report) {
 		}
 	}
 	// Text rooted at a nestable element returns inner HTML only
-	txt := mustFunc(p, r, "N2", "(*mod/internal/webdoc.Text).GenerateOutput")
+	txt := mustInl(p, r, "N2", "(*mod/internal/webdoc.Text).GenerateOutput")
 	if txt != nil {
 		reN := regexp.MustCompile(`^webdoc\.CanBeNested\(dom\.TagName\(.*\)\)$`)
 		cutT, m1 := core.CutAtoms(p, txt, reN, true)
@@ -233,43 +236,28 @@ func checkPlaceholderBalance(p *core.Program, r *core.Report, rule string) bool 
 	sort.Strings(ntags)
 	r.Add(rule, "nestable tag set", "", sameSet(ntags, []string{"blockquote", "li", "ol", "pre", "ul"}), fmt.Sprintf("CanBeNested accepts %v; documented: ul ol li blockquote pre", ntags))
 
-	// ---- N1 visitor
-	ve := mustFunc(p, r, rule, "(*"+converterPkg+".DomConverter).visitElementNodeHandler")
-	startEv := `iface.AddTag($0.builder,webdoc.NewTag(dom.TagName($1),webdoc.TagStart))`
-	if ve != nil {
-		opts := core.DecisionOpts{
-			Outcome: func(in ssa.Instruction, c *core.Canon) (string, bool) {
-				if ret, ok := in.(*ssa.Return); ok {
-					return "return " + c.Of(ret.Results[0]), true
-				}
-				return "", false
-			},
-			Event: func(in ssa.Instruction, c *core.Canon) (string, bool) {
-				if core.IsCallTo(in, "iface:AddTag") {
-					return c.Of(in.(*ssa.Call)), true
-				}
-				if st, ok := in.(*ssa.Store); ok {
-					a := c.Of(st.Addr)
-					if a == "&$1.Data" {
-						return "rename " + c.Of(st.Val), true
-					}
-				}
-				return "", false
-			},
-		}
-		paths, atoms, err := core.EnumerateDecisions(p, ve, opts)
-		if err != nil {
-			r.Undecided(rule, "visitElementNodeHandler", err.Error())
-		}
-		r.Stats["visitor_paths"] = len(paths)
+	// ---- N1 visitor: the visit callback of Convert with its helpers expanded
+	vm := visitor(p, r, rule)
+	if vm == nil {
+		return false
+	}
+	startEv := `AddTag(webdoc.NewTag(dom.TagName($1),webdoc.TagStart))`
+	{
+		r.Stats["visitor_paths"] = len(vm.paths)
 		nStart, nBadFalse, nUnguarded, nOtherTag := 0, 0, 0, 0
 		renameSeen := map[string]bool{}
 		var wit []string
-		for _, pa := range paths {
-			hasStart := strings.Contains(pa.Outcome, "webdoc.TagStart")
-			if strings.Contains(pa.Outcome, "iface.AddTag(") && !strings.Contains(pa.Outcome, startEv) {
-				nOtherTag++
-				wit = append(wit, pa.String())
+		for _, pa := range vm.paths {
+			hasStart := false
+			for _, ev := range builderCalls(pa) {
+				if strings.HasPrefix(ev, "AddTag(") {
+					if ev == startEv {
+						hasStart = true
+					} else {
+						nOtherTag++
+						wit = append(wit, pa.String())
+					}
+				}
 			}
 			tagTrue := ""
 			nestGuard := false
@@ -287,14 +275,16 @@ func checkPlaceholderBalance(p *core.Program, r *core.Report, rule string) bool 
 					nUnguarded++
 					wit = append(wit, "unguarded: "+pa.String())
 				}
-				if strings.HasSuffix(pa.Outcome, "return false") && (tagTrue == "" || nest[tagTrue]) {
+				if pathResult(pa) == "return false" && (tagTrue == "" || nest[tagTrue]) {
 					nBadFalse++
 					wit = append(wit, "start tag then return false: "+pa.String())
 				}
 			}
-			if i := strings.Index(pa.Outcome, "rename "); i >= 0 {
-				to := strings.Trim(strings.SplitN(pa.Outcome[i+7:], ";", 2)[0], `" `)
-				to = strings.TrimSuffix(strings.SplitN(to, " =>", 2)[0], `"`)
+			for _, ev := range pathEvents(pa) {
+				if !strings.HasPrefix(ev, "rename ") {
+					continue
+				}
+				to := strings.Trim(strings.TrimPrefix(ev, "rename "), `"`)
 				ok := tagTrue != "" && !nest[tagTrue] && !nest[to]
 				rk := tagTrue + "->" + to
 				if !ok && !renameSeen[rk] {
@@ -306,23 +296,32 @@ func checkPlaceholderBalance(p *core.Program, r *core.Report, rule string) bool 
 		if len(wit) > 4 {
 			wit = wit[:4]
 		}
-		r.Add(rule, "visitor: a start placeholder exists", p.Pos(ve.Pos()), nStart > 0 && atoms["webdoc.CanBeNested(dom.TagName($1))"], fmt.Sprintf("%d of %d paths emit a start tag", nStart, len(paths)))
-		r.Add(rule, "visitor: start placeholder only under CanBeNested(TagName(node))", p.Pos(ve.Pos()), nUnguarded == 0, fmt.Sprintf("%d unguarded paths", nUnguarded), wit...)
-		r.Add(rule, "visitor: after a start placeholder a nestable element is always walked (return true)", p.Pos(ve.Pos()), nBadFalse == 0, fmt.Sprintf("%d paths emit a start tag and then return false without being conditioned on a non-nestable tag", nBadFalse), wit...)
-		r.Add(rule, "visitor: placeholders carry the node's tag name and are start tags", p.Pos(ve.Pos()), nOtherTag == 0, fmt.Sprintf("%d paths emit another kind of tag", nOtherTag), wit...)
+		r.Add(rule, "visitor: a start placeholder exists", vm.pos, nStart > 0 && vm.atoms["webdoc.CanBeNested(dom.TagName($1))"], fmt.Sprintf("%d of %d paths emit a start tag", nStart, len(vm.paths)))
+		r.Add(rule, "visitor: start placeholder only under CanBeNested(TagName(node))", vm.pos, nUnguarded == 0, fmt.Sprintf("%d unguarded paths", nUnguarded), wit...)
+		r.Add(rule, "visitor: after a start placeholder a nestable element is always walked (return true)", vm.pos, nBadFalse == 0, fmt.Sprintf("%d paths emit a start tag and then return false without being conditioned on a non-nestable tag", nBadFalse), wit...)
+		r.Add(rule, "visitor: placeholders carry the node's tag name and are start tags", vm.pos, nOtherTag == 0, fmt.Sprintf("%d paths emit another kind of tag", nOtherTag), wit...)
 	}
-	// ---- N1 exit handler
-	ex := mustFunc(p, r, rule, "(*"+converterPkg+".DomConverter).exitNodeHandler")
-	if ex != nil {
+	// ---- N1 exit handler: the exit callback of the same walk
+	if ex := vm.exit; ex != nil {
 		opts := core.DecisionOpts{Outcome: func(in ssa.Instruction, c *core.Canon) (string, bool) {
 			if _, ok := in.(*ssa.Return); ok {
 				return "done", true
 			}
 			return "", false
-		}, Event: callEvent(regexp.MustCompile(`AddTag|EndNode`))}
+		}, Event: func(in ssa.Instruction, c *core.Canon) (string, bool) {
+			call, ok := in.(*ssa.Call)
+			if !ok || !call.Call.IsInvoke() || c.Of(call.Call.Value) != vm.builder {
+				return "", false
+			}
+			var args []string
+			for _, a := range call.Call.Args {
+				args = append(args, c.Of(a))
+			}
+			return call.Call.Method.Name() + "(" + strings.Join(args, ",") + ")", true
+		}}
 		paths, atoms, err := core.EnumerateDecisions(p, ex, opts)
 		if err != nil {
-			r.Undecided(rule, "exitNodeHandler", err.Error())
+			r.Undecided(rule, "exit callback", err.Error())
 		}
 		spec := core.DecisionSpec{
 			Atoms: map[string]string{
@@ -331,11 +330,11 @@ func checkPlaceholderBalance(p *core.Program, r *core.Report, rule string) bool 
 			},
 			Rules: []core.SpecRule{
 				{Name: "nestable element: end placeholder, then EndNode", Guard: core.And(core.A("element"), core.A("nestable")),
-					Outcome: `iface.AddTag($0.builder,webdoc.NewTag(dom.TagName($1),webdoc.TagEnd)); iface.EndNode($0.builder) => done`},
-				{Name: "anything else: EndNode only", Guard: core.True(), Outcome: `iface.EndNode($0.builder) => done`},
+					Outcome: `AddTag(webdoc.NewTag(dom.TagName($1),webdoc.TagEnd)); EndNode() => done`},
+				{Name: "anything else: EndNode only", Guard: core.True(), Outcome: `EndNode() => done`},
 			},
 		}
-		core.CheckDecisionList(r, rule, "exitNodeHandler", paths, atoms, spec)
+		core.CheckDecisionList(r, rule, "exit callback", paths, atoms, spec)
 	}
 
 	return true
